@@ -101,6 +101,25 @@ def milestone_bound_rule(ctx: Ctx, rid: str):
                    key=key_of(rid, slot, None, f"milestone bound {pid}"))
     if n < 2:
         raise AnchorMissing(f"scheduleSlot: milestone writes at the dependency bound found: {n}")
+    # backward: the milestone sits at the bound derived in schedule() (earliest successor start minus gap / project end)
+    nb = 0
+    for pid in ("start", "end"):
+        for atoms, node, sc, tgt in pattr_writes(ctx, slot, pid):
+            encl = enclosing_ifs(node.ast, slot.node)
+            in_ms = any(norm(i.test) == "is_milestone" and b == "T" for (i, b) in encl)
+            bwd = any(norm(i.test) == "forward" and b == "F" for (i, b) in encl)
+            unpinned = any(norm(i.test) == "end_date" and b == "F" for (i, b) in encl)
+            if not (in_ms and bwd and unpinned):
+                continue
+            nb += 1
+            ok = "field:backwardBound" in data(atoms)
+            ctx.ob(rid, f"{slot.qual}: backward milestone {pid} := {norm(node.ast.value)[:40]} at the dependency bound", (slot, node.ast), ok,
+                   "date = the bound derived for the backward walk" if ok else
+                   "a backward-scheduled milestone is dated at the start of the last working slot BEFORE its bound (13:00 for a successor "
+                   "starting at 14:00), not at the bound",
+                   key=key_of(rid, slot, None, f"backward milestone bound {pid}"))
+    if nb < 2:
+        raise AnchorMissing(f"scheduleSlot: backward milestone writes found: {nb}")
 
 
 def precise_end_rules(ctx: Ctx, rid: str):
@@ -410,7 +429,7 @@ def run(ctx: Ctx):
     offset_reservation_rule(ctx, "R06.6")
     ctx.floor("R06.6", 1)
     milestone_bound_rule(ctx, "R06.7")
-    ctx.floor("R06.7", 2)
+    ctx.floor("R06.7", 4)
     ctx.floor("R06.1", 6)
     ctx.floor("R06.2", 3)
     ctx.floor("R06.3", 6)
